@@ -49,6 +49,44 @@ func init() {
 	reg(verifPkg+".Instant", func(p *Path, _ *frame, a []Value) Value { return p.instant() })
 	reg("time.Now", func(p *Path, _ *frame, a []Value) Value { return p.now() })
 	reg("time.Since", func(p *Path, _ *frame, a []Value) Value { return p.ctx.BV(0, 64) })
-	reg("time.Sleep", func(p *Path, _ *frame, a []Value) Value { p.yield(); return nil })
+	reg("time.Sleep", func(p *Path, _ *frame, a []Value) Value { p.sleep(); return nil })
 	reg("time.runtimeNano", func(p *Path, _ *frame, a []Value) Value { return p.ctx.BV(0, 64) })
+}
+
+// Tickers: time.NewTicker returns a ticker whose channel (capacity 1, as in
+// the runtime) receives a value only when the harness calls verif.Tick().
+func init() {
+	reg("time.NewTicker", func(p *Path, _ *frame, a []Value) Value {
+		tt := p.eng.namedType("time", "Ticker")
+		st := tt.Underlying().(*types.Struct)
+		s := p.zero(tt).(Struct)
+		ch := p.makeChanOf(p.eng.namedType("time", "Time"))
+		ch.cap = 1
+		ch.name = "ticker.C"
+		for i := 0; i < st.NumFields(); i++ {
+			if st.Field(i).Name() == "C" {
+				s[i] = ch
+			}
+		}
+		p.tickers = append(p.tickers, ch)
+		cell := new(Value)
+		*cell = s
+		return cell
+	})
+	regNoop("(*time.Ticker).Stop", "(*time.Ticker).Reset")
+	reg(verifPkg+".Tick", func(p *Path, _ *frame, a []Value) Value {
+		for _, ch := range p.tickers {
+			if len(ch.buf) < ch.cap {
+				ch.buf = append(ch.buf, p.zero(p.eng.namedType("time", "Time")))
+			}
+		}
+		// time passes: everyone else runs until blocked
+		p.sleep()
+		return nil
+	})
+	reg(verifPkg+".NoDeadlock", func(p *Path, _ *frame, a []Value) Value {
+		s, _ := p.concreteString(a[0])
+		p.deadlockLabel = s
+		return nil
+	})
 }
